@@ -23,6 +23,11 @@ KNOWN_WITNESSES = {
     'C04:expireAll-then-get': ((1, 100, 2), [('create', 'P', None), ('expireAll',), ('get', 'P', 1)]),
     'C04:pickle-then-destroy-then-unpickle': ((1, 100, 2), [('create', 'P', None), ('pickle', 'P', 1, 0),
                                                             ('destroy', 'P', 1, 0), ('unpickle', 'P', 1, 0)]),
+    'C04:destroy-then-pickle-then-unpickle': ((1, 100, 2), [('create', 'P', None), ('destroy', 'P', 1, 0),
+                                                            ('pickle', 'P', 1, 0), ('unpickle', 'P', 1, 0)]),
+    'C04:pickle-then-get-then-drop-then-unpickle-then-unpickle@cull': (
+        (1, 0, 1), [('create', 'P', None), ('pickle', 'P', 1, 0), ('get', 'P', 9), ('drop', 'P', 1, 0),
+                    ('unpickle', 'P', 1, 0), ('unpickle', 'P', 1, 0)]),
 }
 META = {
     'extractors': ['cache'],
@@ -109,6 +114,7 @@ class World(object):
     """executes one history on the real code, evaluates the oracle, emits the model's request lines"""
 
     def __init__(self, cfg):
+        sqlo.setup()
         from sqlobject.cache import CacheSet
         self.cfg = cfg
         do_cache, freq, frac = cfg
@@ -705,7 +711,7 @@ def run(ctx):
     reported = set()
     # 1. corpus + the witnesses of the counter-theorems, replayed on the real code
     for key, (cfg, hist) in sorted(KNOWN_WITNESSES.items()):
-        for do_cache in ((1, 0) if 'expire' in key or 'destroy' in key else (cfg[0],)):
+        for do_cache in ((1, 0) if '@' not in key else (cfg[0],)):
             c2 = (do_cache,) + tuple(cfg[1:])
             w = execute(c2, hist, stop_at_first=False)
             worlds.append((c2, hist, w, 'witness'))
@@ -719,8 +725,8 @@ def run(ctx):
         if w.fails:
             report_failure(ctx, cfg, hist, w, reported)
     # 2. generated histories
-    n_guard = ctx.budget(1100, 30000)
-    n_free = ctx.budget(160, 3000)
+    n_guard = ctx.budget(4000, 60000)
+    n_free = ctx.budget(300, 4000)
     max_ops = 60 if (ctx.tier == 'thorough' or ctx.deep) else 28
     sink = []
     for k in range(n_guard + n_free):
